@@ -24,10 +24,15 @@ import (
 // a Boolean function of the 8L bits of s, with the definition: some offset i
 // at which a rune of s starts, with i+len(substr) <= L, has
 // EqualFold(s[i:i+len(substr)], substr).
-func c13FoldExact(c *Ctx) bool {
+func c13FoldExact(c *Ctx) (okExact bool) {
+	defer recoverUnsupported(c, &okExact, "c13FoldExact")
 	const rule = "C13.fold-exact"
 	f := c.fn("stringutil", "ContainsFold")
 	if f == nil || len(f.Params) != 2 {
+		return false
+	}
+	if th := lengthThresholds(f, 8); len(th) > 0 {
+		c.L.Notef("ContainsFold treats long operands differently (%s): an evaluation on operands of a few bytes does not cover that; structural rules used instead", th[0])
 		return false
 	}
 	big, reps := boolfn.FoldNeedleRunes()
@@ -179,10 +184,15 @@ func witnessAt(w map[int]bool, base, n int) string {
 // of windows of s, and for every path, under its condition, the list must be
 // the definition's: trim s, cut it at the leftmost non-overlapping occurrences
 // of sep, trim every piece, keep the non-empty ones, in order.
-func c13SplitExact(c *Ctx) bool {
+func c13SplitExact(c *Ctx) (okExact bool) {
+	defer recoverUnsupported(c, &okExact, "c13SplitExact")
 	const rule = "C13.split-exact"
 	f := c.fn("stringutil", "SplitTrimmed")
 	if f == nil || len(f.Params) != 2 {
+		return false
+	}
+	if th := lengthThresholds(f, 8); len(th) > 0 {
+		c.L.Notef("SplitTrimmed treats long inputs differently (%s): an evaluation on inputs of a few bytes does not cover that; structural rules used instead", th[0])
 		return false
 	}
 	seps := []string{",", " ", ", ", ";;", "\n"}
